@@ -22,7 +22,8 @@ SIZES = {
 # special-name family: wc.SPECIAL_BASE + 0..N_SPECIAL-1 (workflow names with
 # glob / regex / encoding characters next to sibling names they would match)
 N_SPECIAL = 600
-SIZES_SPECIAL = {"C14": {"quick": 40, "thorough": N_SPECIAL},
+N_SPECIAL_C14 = 900      # 600..899: some spans carry an empty application name
+SIZES_SPECIAL = {"C14": {"quick": 60, "thorough": N_SPECIAL_C14},
                  "C15": {"quick": 24, "thorough": 300}}
 
 ASSUMPTIONS = [
@@ -83,7 +84,8 @@ def build_units(prop, tier, seed, scale, findings):
         for i in r.sample(range(N_DS[prop]), min(n, N_DS[prop])):
             units.append(c14_unit(i))
         ns = scaled(SIZES_SPECIAL[prop][tier], scale)
-        for i in sorted(r.sample(range(N_SPECIAL), min(ns, N_SPECIAL))):
+        for i in sorted(r.sample(range(N_SPECIAL_C14),
+                                 min(ns, N_SPECIAL_C14))):
             units.append(c14_unit(wc.SPECIAL_BASE + i))
         return units
     n_s, n_all = SIZES[prop][tier]
